@@ -219,8 +219,8 @@ def run_shard(args):
             stats['ok'] += 1
             stats['fields_checked'] += len(NAMES)
             ref = refsem.resolve(st)
-            stats['quietly_dropped'] += sum(1 for n, (t, o) in ref['out'].items() if isinstance(t, refsem.Broken))
-            if len(flat) >= 2 and len(obs['dir']) >= 2:
+            stats['quietly_dropped'] += sum(1 for n, (t, o) in ref.get('out', {}).items() if isinstance(t, refsem.Broken))
+            if len(flat) >= 2 and len(obs.get('dir', [])) >= 2:
                 distinct.add(json.dumps(st, sort_keys=True))
         if diffs:
             oracle_bad.append({'stack': st, 'diffs': json.loads(json.dumps(diffs[:4], default=str))})
